@@ -354,9 +354,20 @@ def hygiene():
     return bad
 
 
+COVERDIR = os.environ.get("VERIF_COVERDIR")      # measurement aid only: builds with -cover, collects where the checks reach
+
+
+def cover_env(env):
+    if COVERDIR:
+        env = dict(env)
+        env["GOCOVERDIR"] = COVERDIR
+    return env
+
+
 def build_go(workdir, cli=("bkl",), harness=True, race=False):
     bindir = os.path.join(workdir, "bin")
     os.makedirs(bindir, exist_ok=True)
+    cov = ["-cover", "-coverpkg=github.com/gopatchy/bkl/..."] if COVERDIR else []
     if harness:
         h = os.path.join(VERIF, "harness")
         if REPO != "/repo":
@@ -374,11 +385,12 @@ def build_go(workdir, cli=("bkl",), harness=True, race=False):
             tmp = dst + ".%d.tmp" % os.getpid()
             open(tmp, "wb").write(want)
             os.replace(tmp, dst)
-        rc, out = sh(["go", "build", "-o", os.path.join(bindir, "verifh"), "."], cwd=h, env=GOENV, timeout=900)
+        hcov = ["-cover", "-coverpkg=github.com/gopatchy/bkl/...,verifh"] if COVERDIR else []     # the main package must be instrumented for data to be written
+        rc, out = sh(["go", "build"] + hcov + ["-o", os.path.join(bindir, "verifh"), "."], cwd=h, env=GOENV, timeout=900)
         if rc:
             raise BuildError("go harness against /repo", out)
     for c in cli:
-        cmd = ["go", "build"] + (["-race"] if race else []) + ["-o", os.path.join(bindir, c), "./cmd/" + c]
+        cmd = ["go", "build"] + cov + (["-race"] if race else []) + ["-o", os.path.join(bindir, c), "./cmd/" + c]
         rc, out = sh(cmd, cwd=REPO, env=GOENV, timeout=900)
         if rc:
             raise BuildError("go build ./cmd/%s" % c, out)
@@ -446,7 +458,7 @@ class Ctx:
         return quick * self.scale if self.tier == "quick" else thorough
 
     def impl(self, cases, timeout=900):
-        env = {"PATH": os.environ.get("PATH", ""), "HOME": self.work, "TMPDIR": self.work}
+        env = cover_env({"PATH": os.environ.get("PATH", ""), "HOME": self.work, "TMPDIR": self.work})
         res = run_stream(os.path.join(self.bindir, "verifh"), cases, timeout=timeout, env=env)
         # the real code dying (process crash) or panicking on a case is never acceptable, whatever the property's judge compares
         for c, r in zip(cases, res):
@@ -580,6 +592,7 @@ def cli(binary, args, cwd, env=None, timeout=30, inp=None):
     e = {"PATH": "/usr/bin:/bin", "HOME": cwd, "TMPDIR": cwd}
     if env:
         e.update(env)
+    e = cover_env(e)
     try:
         p = subprocess.run([binary] + list(args), cwd=cwd, env=e, stdout=subprocess.PIPE, stderr=subprocess.PIPE,
                            timeout=timeout, input=inp)
